@@ -104,6 +104,36 @@ def step (line : String) : String :=
           answer (showList (List.replicate calls r))
             (match parseInts impl with | some xs => xs.all (· == want) && allIn xs parts | none => false)
       | _, _, _ => "bad-op"
+    | ["hashseq", n, ks] =>
+      -- one Hash{Hasher: fnv.New32a()} value, successive calls with the listed keys (state carried by the Go object)
+      match n.toNat?, (ks.splitOn ",").mapM ofHex with
+      | some n, some keys =>
+        let rs := keys.map fun k => some (hashBalanceWith fnvHasher fnvOffset k n).2
+        let want := keys.map fun k => some (Spec.saramaHash (fnv1a32 k).toNat n)
+        answer (showList rs) (impl == showList want)
+      | _, _ => "bad-op"
+    | ["refhashseq", n, ks] =>
+      match n.toNat?, (ks.splitOn ",").mapM ofHex with
+      | some n, some keys =>
+        let rs := keys.map fun k => some (refHashBalanceWith fnvHasher Gen.refHashMask fnvOffset k n).2
+        let want : List (Option Int) := keys.map fun k => some (Int.ofNat (Spec.saramaRefHash (fnv1a32 k).toNat n))
+        answer (showList rs) (impl == showList want)
+      | _, _ => "bad-op"
+    | ["hashsum", sum, n] =>
+      -- stub Hasher returning a chosen Sum32: the arithmetic for every 32-bit hash code
+      match sum.toNat?, n.toNat? with
+      | some sum, some n =>
+        let r := hashIndex (UInt32.ofNat sum) n
+        let want := Spec.saramaHash sum n
+        answer (toString r) (impl == toString want && 0 ≤ want && want < n)
+      | _, _ => "bad-op"
+    | ["refhashsum", sum, n] =>
+      match sum.toNat?, n.toNat? with
+      | some sum, some n =>
+        let r := refHashIndex Gen.refHashMask (UInt32.ofNat sum) n
+        let want : Int := Int.ofNat (Spec.saramaRefHash sum n)
+        answer (toString r) (impl == toString want)
+      | _, _ => "bad-op"
     | ["crc32b", cons, k, ps, calls] =>
       match parseKey k, parseInts ps, calls.toNat? with
       | some key, some parts, some calls =>
